@@ -44,7 +44,7 @@ func (c13Engine) Meta() core.Meta {
 
 func (c13Engine) Runs(tier string) int {
 	if tier == "thorough" {
-		return 6000
+		return 4000
 	}
 	return 480
 }
